@@ -177,7 +177,7 @@ class EnvCheck:
         ck.queries += 1
         return ck.prove(oid, assumptions, goal, nonlinear=pre.status not in ("sat", "unsat"), **kw)
 
-    def __init__(self, ck, name):
+    def __init__(self, ck, name, flags=None):
         import jax
         import jax.numpy as jnp
         from jax import random as jr
@@ -185,14 +185,18 @@ class EnvCheck:
         import lerax.env.mujoco as lm
         from jaxsmt import stubs
         from refs import mujoco_v5 as R
-        self.ck, self.name, self.eid = ck, name, ENV_IDS[name]
+        # flags: documented boolean observation options set to a non-default value (same names in lerax and Gymnasium v5); the variant is a check of
+        # the OBSERVATION only (sizes, advertised space, layout), its id carries the option
+        self.flagcfg = dict(flags or {})
+        self.ck, self.name = ck, name
+        self.eid = ENV_IDS[name] + ("" if not flags else "[" + ",".join(f"{k}={v}" for k, v in self.flagcfg.items()) + "]")
         self.R = R
-        self.ref = R.REFS[name]()
+        self.ref = R.REFS[name](**self.flagcfg)
         self.t0 = time.time()
         self.phys = None
         # the real-physics helper takes 30-50 s (XLA compilation of mjx.step): it is started speculatively when the v5 semantics reads
         # force-type leaves (cfrc_*, cacc) and killed as soon as the measured write-set shows that it is not needed
-        if ck.thorough and (ck.only is None or ck.only == f"{self.eid}.reads_only_written_fields"):
+        if ck.thorough and not flags and (ck.only is None or ck.only == f"{self.eid}.reads_only_written_fields"):
             rec = _Rec()
             try:
                 z = {f: np.zeros((40, 12)) for f in R.FIELDS}
@@ -202,19 +206,20 @@ class EnvCheck:
             if any(f.startswith(("cfrc", "cacc")) for f in rec.seen):
                 self.start_physics()
         # ---- reference vs the installed Gymnasium
-        ok, pts, bad, self.G = R.validate(self.ref, n_physical=3 if not ck.thorough else 6, n_synthetic=4 if not ck.thorough else 12, seed=ck.seed)
+        ok, pts, bad, self.G = R.validate(self.ref, n_physical=(3 if not ck.thorough else 6) if not flags else 2, n_synthetic=(4 if not ck.thorough else 12) if not flags else 2, seed=ck.seed)
         ck.fact(f"ref.{self.eid}.validated_against_gymnasium", ok, f"{pts} points (physical trajectories and synthetic data through the installed {self.ref.gym_id} "
                 f"step()/_get_obs()); mismatches: {bad[:3]}")
         self.ref_ok = ok
         # a deliberately wrong reference must be rejected by the same validation
-        mut = self.mutant()
-        okm = R.validate(mut, n_physical=2, n_synthetic=2, seed=ck.seed)[0]
-        ob = ck._new(f"control.ref.{self.eid}.mutant_rejected_by_gymnasium", "control")
-        ob.status = "sat (as required)" if not okm else "unsat"
-        if okm:
-            ob.detail = "a mutated reference passed the validation against Gymnasium"
-            ck.inconclusive.append(ob)
-        self.env = getattr(lm, name)()
+        if not flags:
+            mut = self.mutant()
+            okm = R.validate(mut, n_physical=2, n_synthetic=2, seed=ck.seed)[0]
+            ob = ck._new(f"control.ref.{self.eid}.mutant_rejected_by_gymnasium", "control")
+            ob.status = "sat (as required)" if not okm else "unsat"
+            if okm:
+                ob.detail = "a mutated reference passed the validation against Gymnasium"
+                ck.inconclusive.append(ob)
+        self.env = getattr(lm, name)(**self.flagcfg)
         self.jr, self.jnp, self.jax = jr, jnp, jax
         with stubs.prng_stubs():
             self.s0 = jax.eval_shape(lambda k: self.env.initial(key=k), jr.key(0))
@@ -325,7 +330,7 @@ class EnvCheck:
             self.phys.kill()
             self.phys = None
 
-    def formulas(self):
+    def formulas(self, only_obs=False):
         from jaxsmt.core import conj, eq_arr, eq_elem, neg
         from jaxsmt.interp import Interp
         import z3
@@ -373,6 +378,8 @@ class EnvCheck:
         # a wrong layout (entries rotated by one) must be refuted
         if r_obs.size > 1 and out["obs"].shape == r_obs.shape:
             ck.control(f"control.{eid}.obs_rotated", link, eq_arr(out["obs"], np.roll(r_obs, 1)), nonlinear=True)
+        if only_obs:
+            return
         # reward
         self.prove(f"{eid}.reward", link, eq_elem(out["reward"][()], r_rew), margin_goal=margin([(out["reward"][()], r_rew)], extra),
                  replay=rp_for("reward", "reward"))
@@ -805,6 +812,17 @@ def _worker(name, argv, pid):
             ec.pipeline()
         if ec.phys is not None and ec.phys.poll() is None:
             ec.phys.kill()
+        # documented observation options at their non-default value, one at a time (and all of them together): sizes / advertised space (`defaults`)
+        # and the observation layout against the flag-aware v5 reference, itself validated against Gymnasium built with the same options
+        opts = [k for k in ec.ref.flags if k != "terminate_when_unhealthy"]
+        variants = [{k: False} for k in opts] + ([{k: False for k in opts}] if len(opts) > 1 and ck.thorough else [])
+        for fl in variants:
+            tag = ",".join(f"{k}={v}" for k, v in fl.items())
+            with ck.section(f"mujoco.{eid}.options[{tag}]"):
+                ev = EnvCheck(ck, name, flags=fl)
+                ev.defaults()
+                ev.trace_formulas()
+                ev.formulas(only_obs=True)
     ck.log(f"[{eid}] done in {time.time() - ck.t0:.1f}s")
     keep = ("obls", "functions", "bounds", "stubs", "assumptions", "out_of_claim", "samples", "violations", "known_hits", "validation", "solver_time",
             "queries", "notes", "errors")
@@ -843,11 +861,11 @@ def run(ck, names=None):
     import multiprocessing as mp
     names = list(names or ENV_IDS)
     if ck.only is not None:     # --replay <file>: only the environment the obligation belongs to (none if it belongs to the classic half)
-        names = [n for n in names if ck.only.startswith(ENV_IDS[n] + ".") or ck.only.endswith("@" + ENV_IDS[n]) or f".{ENV_IDS[n]}." in ck.only]
+        names = [n for n in names if ck.only.startswith(ENV_IDS[n] + ".") or ck.only.startswith(ENV_IDS[n] + "[") or ck.only.endswith("@" + ENV_IDS[n]) or f".{ENV_IDS[n]}." in ck.only]
         if not names:
             return
     ck.bound(mujoco_envs=names, mujoco_note="actual model sizes (no reduction); every array field of the environment (weights, ranges, dt, model) and two complete "
-             "mjx.Data records are symbolic reals; frame_skip and the observation flags are the constructor defaults")
+             "mjx.Data records are symbolic reals; frame_skip is the constructor default; the boolean observation options are the defaults in the full obligations and, for the observation layout / sizes, each option at its non-default value (one at a time; all together in the thorough tier)")
     ck.out("MJX-vs-MuJoCo physics agreement (physics is uninterpreted), multi-step trajectories, non-finite states (isfinite is true over the reals), "
            "float32 rounding, the distribution of the reset noise")
     argv = ["--tier", ck.tier] + (["--replay", ck.replay_path] if ck.replay_path else [])
